@@ -117,6 +117,11 @@ def main():
             elif rc == 2 and rc2 == 1:
                 print(f"[{prop}] plain view: {first[:200]}; the helper-inlined view of the same sources reports:")
                 rc, out, report = rc2, out2, report2
+            elif rc == 1 and rc2 == 1:
+                # both views name violations: an obligation that fails on the plain view only because the code sits in a helper is discharged on the
+                # inlined view, so the inlined view's list is the one without such artefacts
+                print(f"[{prop}] violations on both views; reported from the helper-inlined view of the same sources:")
+                rc, out, report = rc2, out2, report2
         # a method of a package base class that a subclass newly overrides (not so in the reference tree): the rules judge the implementation they
         # know; a silent pass would vouch for code they never looked at. (Overrides a rule handles explicitly have produced their verdict above.)
         if rc == 0:
